@@ -457,9 +457,14 @@ func trimStack(s string) string {
 }
 
 // Panics runs f and reports whether it panicked and with what value.
-func Panics(f func()) (bool, any) {
-	ok, v, _ := Try(f)
-	return !ok, v
+func Panics(f func()) (panicked bool, val any) {
+	defer func() {
+		if r := recover(); r != nil {
+			panicked, val = true, r
+		}
+	}()
+	f()
+	return false, nil
 }
 
 // Q quotes a byte string so that it survives JSON untouched.
